@@ -70,7 +70,7 @@ PLAN = {
         "prop": [],
         "mc_quick": ["CfgsQ1"],
         "vacuity": [("DevFresh", "CfgsQ1", "NoZombie"), ("DevGate", "CfgsQ1", "NoZombie"), ("DevNoRemove", "CfgsQ1", "Forgotten")],
-        "scen_quick": ["h1-max1-A", "h1-max1-AA", "h1-tls-max1-AAB", "h2-max1-AA", "tun-max1-AAB", "h1-max1-pto"],
+        "scen_quick": ["h1-max1-A", "h1-max1-AA", "h1-tls-max1-AAB", "h2-max1-AA", "tun-max1-AAB", "h1-max1-pto", "socks-max1-AA", "fwd-max1-AA", "socks-guess-max1-AA"],
         "scen_thorough": ["h1-max1-A", "h1-max1-AA", "h1-max1-AAB", "h1-tls-max1-AAB", "h1-max1-close", "h1-max1-abandon", "h1-guess-max1", "h1-max2-ABA-keep1", "h2-max1-AA", "h2-max1-AAB", "tun-max1-AAB", "fwd-max1-AAB", "socks-max1-AAB", "h1-max1-pto", "h1-max1-pto-AB"],
         "strategies": ["base", "fault", "cancel-scope", "cancel-native", "time"],
     },
@@ -155,8 +155,8 @@ PLAN = {
         "mc_thorough": ["CfgsMexp"],
         "inv": ["TypeOK"],
         "prop": ["PassImplementsRel"],
-        "mc_quick": ["CfgsQ2", "CfgsK1"],
-        "vacuity": [("DevKeep", "CfgsK1", "PassImplementsRel")],
+        "mc_quick": ["CfgsQ2", "CfgsK1", ("CfgsK2", {"faults": 0})],
+        "vacuity": [("DevKeep", "CfgsK1", "PassImplementsRel"), ("DevStale", "CfgsK2", "PassImplementsRel")],
         "scen_quick": ["h1-max2-ABA-keep1", "h1-max2-ABC-keep0"],
         "scen_thorough": ["h1-max2-ABA-keep1", "h1-max2-ABC-keep0", "h1-max3-ABCAB", "h1-max1-AAB"],
         "strategies": ["base", "dfs", "keepalive-scripts"],
@@ -407,6 +407,65 @@ class PoolRunner:
                 run = scen.make()
                 run_script(run, script)
                 self.add(scen, ("script", n), run, extra=[list(s) for s in script])
+                n += 1
+        self.overlap_scripts(quick, n)
+
+    def overlap_scripts(self, quick, n):
+        """Keep-alive histories in which responses are HELD OPEN while other things happen (a
+        connection goes stale - expiry or server-side close - next to one that is about to turn
+        idle; surplus decided while another response is open).  Words: go X (a whole request),
+        open X (request whose response is held), close (release the oldest held response),
+        advance, peerclose.  Enumerated completely for the chosen length."""
+        import itertools
+
+        from .pool_scenarios import A, B, Scenario, c
+
+        alphabet = [("go", 0), ("go", 1), ("open", 0), ("open", 1), ("close",), ("advance", 3), ("peerclose", 0), ("peerclose", 1)]
+        configs = [(2, 1, 2), (2, 1, None)] if quick else [(2, 1, 2), (2, 1, None), (3, 1, 2), (2, 2, 2), (3, 2, None), (2, 0, 2)]
+        length = 4 if quick else 5
+        for mc, mk, ex in configs:
+            for seqn in itertools.product(range(len(alphabet)), repeat=length):
+                steps = [alphabet[i] for i in seqn]
+                # at least one held response that is released later, and something in between
+                opens = [i for i, s in enumerate(steps) if s[0] == "open"]
+                closes = [i for i, s in enumerate(steps) if s[0] == "close"]
+                if not opens or not closes or not any(cl > op + 1 for op in opens for cl in closes):
+                    continue
+                if ex is None and any(s[0] == "advance" for s in steps):
+                    continue
+                if sum(1 for s in steps if s[0] in ("go", "open")) < 2:
+                    continue
+                if not quick and length == 5 and self.rng.random() > 0.3:
+                    continue
+                calls, script, held = [], [], []
+                clock = 0
+                k = 0
+                ok = True
+                for s in steps:
+                    if s[0] in ("go", "open"):
+                        k += 1
+                        nm = f"r{k}"
+                        gates = ("start",) if s[0] == "go" else ("start", "read")
+                        calls.append(c(nm, (A if s[1] == 0 else B) + f"/{k}", gates=gates))
+                        script.append(("go", nm))
+                        if s[0] == "open":
+                            held.append(nm)
+                    elif s[0] == "close":
+                        if not held:
+                            ok = False
+                            break
+                        script.append(("release", held.pop(0), "read"))
+                    elif s[0] == "advance":
+                        clock += s[1]
+                        script.append(("advance", clock))
+                    else:
+                        script.append(("peerclose", (A if s[1] == 0 else B) + "/"))
+                if not ok:
+                    continue
+                scen = Scenario(f"overlap-mc{mc}-mk{mk}-ex{ex}", dict(max_connections=mc, max_keepalive_connections=mk, keepalive_expiry=ex), calls)
+                run = scen.make()
+                run_script(run, script, hold=("read",))
+                self.add(scen, ("overlap", n), run, extra=[list(s) for s in script])
                 n += 1
 
     # ---- 4/5: TLC judges ------------------------------------------------------
